@@ -1,7 +1,225 @@
-// Package c06 interprets the C06 op language against the real packages (stub).
+// Package c06 interprets the C06 op language (hot-parameter concurrency) against the real packages:
+// hotspot.LoadRules + api.Entry(WithArgs/WithAttachments) + Exit, through the global slot chain.
 package c06
 
-import "verifharness/internal/vh"
+import (
+	"fmt"
+	"runtime"
+	"runtime/debug"
+	"strconv"
+	"strings"
 
-// New returns the interpreter for C06.
-func New() vh.Interp { return nil }
+	sentinel "github.com/alibaba/sentinel-golang/api"
+	"github.com/alibaba/sentinel-golang/core/base"
+	"github.com/alibaba/sentinel-golang/core/circuitbreaker"
+	"github.com/alibaba/sentinel-golang/core/flow"
+	"github.com/alibaba/sentinel-golang/core/hotspot"
+	"github.com/alibaba/sentinel-golang/core/isolation"
+	"github.com/alibaba/sentinel-golang/core/stat"
+	"github.com/alibaba/sentinel-golang/core/system"
+	"verifharness/internal/vh"
+)
+
+const startMs = 1_900_000_000_000
+
+type Interp struct {
+	clk     *vh.Clock
+	caseNo  uint64
+	entries map[string]*base.SentinelEntry
+	fb      []string
+}
+
+func New() vh.Interp {
+	// sync.Pool is LIFO on one P: with these three pins the reuse of pooled EntryOptions / EntryContext
+	// objects is deterministic, so a regression of the args-copy repair shows on every run
+	runtime.GOMAXPROCS(1)
+	runtime.LockOSThread()
+	debug.SetGCPercent(-1)
+	vh.Silence()
+	return &Interp{clk: vh.NewClock(startMs), entries: map[string]*base.SentinelEntry{}}
+}
+
+func (it *Interp) Reset() {
+	// leave no entry of the previous case alive (their contexts go back to the pool)
+	for _, e := range it.entries {
+		e.Exit()
+	}
+	it.entries = map[string]*base.SentinelEntry{}
+	it.fb = nil
+	_ = hotspot.ClearRules()
+	_ = flow.ClearRules()
+	_ = isolation.ClearRules()
+	_ = circuitbreaker.ClearRules()
+	_ = system.ClearRules()
+	stat.ResetResourceNodeMap()
+	it.caseNo++
+	it.clk.SetMs(startMs + it.caseNo*20_000)
+}
+
+func parseVal(s string) interface{} {
+	switch {
+	case s == "nil":
+		return nil
+	case strings.HasPrefix(s, "i:"):
+		return int(vh.I(s[2:]))
+	case strings.HasPrefix(s, "l:"):
+		return int64(vh.I(s[2:]))
+	case strings.HasPrefix(s, "s:"):
+		return s[2:]
+	case s == "b:1":
+		return true
+	case s == "b:0":
+		return false
+	}
+	panic("bad value " + s)
+}
+
+func showVal(v interface{}) string {
+	switch x := v.(type) {
+	case nil:
+		return "nil"
+	case int:
+		return "i:" + strconv.Itoa(x)
+	case int64:
+		return "l:" + strconv.FormatInt(x, 10)
+	case string:
+		return "s:" + x
+	case bool:
+		if x {
+			return "b:1"
+		}
+		return "b:0"
+	}
+	return fmt.Sprintf("?%T", v)
+}
+
+func parseRule(s string) *hotspot.Rule {
+	p := strings.Split(s, ";")
+	if len(p) != 7 {
+		panic("bad rule " + s)
+	}
+	r := &hotspot.Rule{
+		Resource:          p[0],
+		ParamIndex:        int(vh.I(p[2])),
+		ParamKey:          p[3],
+		Threshold:         vh.I(p[4]),
+		ParamsMaxCapacity: vh.I(p[5]),
+		SpecificItems:     map[interface{}]int64{},
+	}
+	switch p[1] {
+	case "c":
+		r.MetricType = hotspot.Concurrency
+	case "q":
+		// a QPS rule that never blocks within a case (the clock does not move): C05 is about those
+		r.MetricType = hotspot.QPS
+		r.ControlBehavior = hotspot.Reject
+		r.DurationInSec = 1
+		r.Threshold = 1_000_000_000
+	default:
+		panic("bad rule kind " + s)
+	}
+	if p[6] != "" {
+		for _, it := range strings.Split(p[6], ",") {
+			kv := strings.Split(it, "=")
+			if len(kv) != 2 {
+				panic("bad item " + it)
+			}
+			r.SpecificItems[parseVal(kv[0])] = vh.I(kv[1])
+		}
+	}
+	if p[1] == "q" {
+		r.SpecificItems = map[interface{}]int64{}
+	}
+	return r
+}
+
+func (it *Interp) Step(t []string, op string) string {
+	switch t[0] {
+	case "load":
+		rules := make([]*hotspot.Rule, 0, len(t)-1)
+		for _, s := range t[1:] {
+			rules = append(rules, parseRule(s))
+		}
+		if err := hotspot.ClearRules(); err != nil {
+			return "err"
+		}
+		if _, err := hotspot.LoadRules(rules); err != nil {
+			return "err"
+		}
+		return ""
+	case "flowblock":
+		it.fb = append(it.fb, t[1])
+		rules := make([]*flow.Rule, 0, len(it.fb))
+		seen := map[string]bool{}
+		for _, r := range it.fb {
+			if seen[r] {
+				continue
+			}
+			seen[r] = true
+			rules = append(rules, &flow.Rule{Resource: r, Threshold: 0,
+				TokenCalculateStrategy: flow.Direct, ControlBehavior: flow.Reject})
+		}
+		if _, err := flow.LoadRules(rules); err != nil {
+			return "err"
+		}
+		return ""
+	case "entry":
+		id, res := t[1], t[2]
+		if _, dup := it.entries[id]; dup {
+			panic("duplicate entry id " + id)
+		}
+		var args []interface{}
+		var atts map[interface{}]interface{}
+		for _, s := range t[3:] {
+			if strings.HasPrefix(s, "@") {
+				kv := strings.SplitN(s[1:], "=", 2)
+				if len(kv) != 2 {
+					panic("bad attachment " + s)
+				}
+				if atts == nil {
+					atts = map[interface{}]interface{}{}
+				}
+				atts[kv[0]] = parseVal(kv[1])
+			} else {
+				args = append(args, parseVal(s))
+			}
+		}
+		var opts []sentinel.EntryOption
+		if len(args) > 0 {
+			opts = append(opts, sentinel.WithArgs(args...))
+		}
+		if atts != nil {
+			opts = append(opts, sentinel.WithAttachments(atts))
+		}
+		e, b := sentinel.Entry(res, opts...)
+		if b != nil {
+			switch b.BlockType() {
+			case base.BlockTypeHotSpotParamFlow:
+				return "block hot"
+			case base.BlockTypeFlow:
+				return "block flow"
+			}
+			return "block " + b.BlockType().String()
+		}
+		it.entries[id] = e
+		return "pass"
+	case "exit":
+		if e, ok := it.entries[t[1]]; ok {
+			e.Exit()
+			delete(it.entries, t[1])
+		}
+		return ""
+	case "args":
+		e, ok := it.entries[t[1]]
+		if !ok {
+			return "none"
+		}
+		xs := e.Context().Input.Args
+		out := make([]string, len(xs))
+		for i, x := range xs {
+			out[i] = showVal(x)
+		}
+		return vh.List(out)
+	}
+	panic("bad op " + op)
+}
